@@ -30,7 +30,34 @@ class LogCapture(logging.Handler):
         self.records: list = []
 
     def emit(self, record):
-        self.records.append((record.name, record.levelname, record.getMessage()))
+        et = where = None
+        if record.exc_info and record.exc_info[1] is not None:
+            import traceback
+
+            e = record.exc_info[1]
+            et = type(e).__name__
+            fr = traceback.extract_tb(e.__traceback__)
+            where = next((f.name for f in reversed(fr) if "/aiohttp/" in f.filename), None)
+        try:
+            msg = record.getMessage()
+        except Exception:
+            msg = str(record.msg)
+        self.records.append((record.name, record.levelname, msg[:200], et, where))
+
+
+_server_log = None
+
+
+def server_log() -> LogCapture:
+    """Process-wide capture of the aiohttp.server logger ('Unhandled exception', 'Error handling request')."""
+    global _server_log
+    if _server_log is None:
+        _server_log = LogCapture()
+        lg = logging.getLogger("aiohttp.server")
+        lg.handlers[:] = [_server_log]
+        lg.propagate = False
+        lg.setLevel(logging.WARNING)
+    return _server_log
 
 
 class MemConnector(BaseConnector):
